@@ -1159,6 +1159,7 @@ func redisConfig(port int, strategy int32, connectTimeout time.Duration) *servic
 	}
 }
 
+var simProxyName string        // when set: the name of the next service started
 var simProxyIdle time.Duration // when set: the idle timeout of the next service started
 var simProxyCompress uint32    // when set: the next service started compresses values of at least this many bytes
 
@@ -1167,6 +1168,9 @@ func startRedisProxy(seeds []string, strategy int32) *simProxy {
 	simTimersOnce.Do(func() { redis.VerifSetSlotsRefresh(time.Hour, 15*time.Millisecond) })
 	simProxySeq++
 	name := fmt.Sprintf("sim%d", simProxySeq)
+	if simProxyName != "" {
+		name = simProxyName
+	}
 	port := freePort()
 	cfg := redisConfig(port, strategy, 300*time.Millisecond)
 	cfg.Listener.ConnectionLimit = simProxyLimit
@@ -1190,7 +1194,8 @@ func startRedisProxy(seeds []string, strategy int32) *simProxy {
 	if err := p.Start(); err != nil {
 		die("proc.Start: %v", err)
 	}
-	sp := &simProxy{p: p, name: name, addr: fmt.Sprintf("127.0.0.1:%d", port)}
+	// the statistics scope of a service is its name with every '.' replaced by '_'
+	sp := &simProxy{p: p, name: strings.Replace(name, ".", "_", -1), addr: fmt.Sprintf("127.0.0.1:%d", port)}
 	// the listener binds asynchronously
 	for t := 0; t < 400; t++ {
 		c, err := net.DialTimeout("tcp", sp.addr, 100*time.Millisecond)
